@@ -333,6 +333,26 @@ def _check_resolve(case, ctx):
                     else:
                         norm = typ
                 seen[(v, form)] = (kind, norm)
+        # the same selector with an empty segment in it, and a 'URL:' selector (whose '://' has one too): whether that names
+        # anything is one answer, the same through every protocol
+        odd = ["/" + sel] if sel != "/" else []
+        if sel.count("/") >= 2:
+            i = sel.index("/", 1)
+            odd.append(sel[:i] + "/" + sel[i:])
+        if case["pick"] % 4 == 0:
+            odd.append("/URL:http://example.com/some/page")
+        for v in odd:
+            outcome = {}
+            for form in RES_FORMS:
+                tls, fam = clients.FORMS[form]
+                if fam == "gbang":
+                    continue
+                r = drive.serve(cfg, clients.encode(form, world.b(v)), tls=tls, realfd=full)
+                pr = clients.parse_response(form, r.response)
+                outcome[form] = "failed" if r.escaped is not None else ("served" if pr.ok and pr.kind != "error" else "refused")
+            ctx.label("resolve:empty-segment:" + "+".join(sorted(set(outcome.values()))))
+            if len(set(outcome.values())) > 1 and not fails:
+                fails.append(Fail("resolve-differs:empty-segment", "%r is answered differently across protocols: %r" % (v, outcome)))
         kinds = {k for k, _ in seen.values()}
         norms = {n for _, n in seen.values()}
         if not gen.is_tame(sel.replace("/", "")) or "|" in sel:
